@@ -31,6 +31,19 @@ for sid in sys.argv[1:]:
            "when": time.strftime("%Y-%m-%d %H:%M")}
     try:
         rc, out = sh(f"git apply {d}/patch.diff", cwd=wt)
+        if rc != 0:
+            # a later fix: commit touched the same lines: fall back to the /repo commit the change was confirmed at
+            # (the checks are run in their current state against that older tree + the change)
+            base = (meta.get("confirmation") or {}).get("checked_at_repo_head")
+            if base:
+                sh(f"git -C /repo worktree remove --force {wt}")
+                shutil.rmtree(wt, ignore_errors=True)
+                rc0, out0 = sh(f"git -C /repo worktree add -f {wt} {base}")
+                if rc0 == 0:
+                    rc, out = sh(f"git apply {d}/patch.diff", cwd=wt)
+                    if rc == 0:
+                        rec["applied_on_base"] = base
+                        # is the unchanged base itself still accepted by the current check? (a later fix may be what the check now demands)
         rec["patch_applies"] = rc == 0
         if rc == 0:
             t0 = time.time()
